@@ -270,12 +270,17 @@ impl Peer {
             return Err(Error::from(ErrorKind::InvalidInput));
         }
 
-        if self.public_key.is_some() {
-            assert_eq!(
-                response.public_key,
-                self.public_key.unwrap(),
-                "This peer instance is to handle a peer with a different public key"
+        if self.public_key.is_some() && self.public_key.unwrap() != response.public_key {
+            // the remote side decides what is in the response, so this cannot be an assertion
+            warn!(
+                "peer : {:?} is known under key : {:?} but answered the handshake with key : {:?}",
+                self.index,
+                self.public_key.unwrap().to_base58(),
+                response.public_key.to_base58()
             );
+            self.mark_as_disconnected(current_time);
+            io_handler.disconnect_from_peer(self.index).await?;
+            return Err(Error::from(ErrorKind::InvalidInput));
         }
 
         self.block_fetch_url = response.block_fetch_url;
